@@ -572,7 +572,8 @@ func (o DHCPv6Option) String() string {
 		return fmt.Sprintf("Option(%s:[%s])", o.Code, duid.String())
 	case DHCPv6OptOro:
 		options := ""
-		for i := 0; i < int(o.Length); i += 2 {
+		// (a trailing odd octet, or a Length that disagrees with Data, is not an option code)
+		for i := 0; i+1 < int(o.Length) && i+1 < len(o.Data); i += 2 {
 			if options != "" {
 				options += ","
 			}
